@@ -964,11 +964,21 @@ class AbstractExcelInPython(ABC):
             return 'TRUE' if value else 'FALSE'
 
         if isinstance(value, (datetime.datetime)):
-            base_date = datetime.datetime(1899, 12, 30)
-            return str((value - base_date).days)
+            # a date is its serial number, the time of day its fraction
+            value = (value - datetime.datetime(1899, 12, 30)).total_seconds() / 86400
 
         if isinstance(value, float) and value.is_integer() and abs(value) < 1e15:
             return str(int(value))
+
+        if isinstance(value, float) and value == value and value not in (float('inf'), float('-inf')):
+            # 15 significant digits, as Excel writes a number into a text (0.1+0.2 is "0.3", 1/3 "0.333333333333333")
+            text = format(value, '.15g')
+            if 'e' in text:
+                mantissa, exponent = text.split('e')
+                if -9 <= int(exponent) < 0:
+                    return format(Decimal(text), 'f')
+                return mantissa + 'E' + ('-' if int(exponent) < 0 else '+') + str(abs(int(exponent))).rjust(2, '0')
+            return text
 
         return str(value)
 
